@@ -359,14 +359,14 @@ void run_static(Ctx &c, StaticCase<K> &sc, char which, Extra &extra) {
                     extra.exception_region(sc));
         return;
     }
-    set_threads(1);
     std::unique_ptr<Idx> guard(idx);
     // The object that answers the queries is not always the one the constructor produced: an index held by value is
     // copied, moved, assigned and relocated by containers, and remains "the index over this sequence". Half of the cases
     // query the constructed object, the others a copy / moved-to / assigned-to object whose source has been destroyed.
     if (sc.lifecycle < 0) sc.lifecycle = n > (size_t(1) << 22) ? 0 : int(mix(c.input_hash, 0x11fec7c1e) % 8);
-    guard = object_lifecycle(c, std::move(guard), sc.lifecycle);
+    guard = object_lifecycle(c, std::move(guard), sc.lifecycle); // still under the case's OpenMP settings, like the build
     idx = guard.get();
+    set_threads(1);
     extra.after_build(c, *idx, sc);
 
     // queries
